@@ -213,3 +213,10 @@ SHRINK_OPS = ["shrink_to", "shrink_to_fit"]
 PROPS["C13"]["op_scope"] = {"include": True, "ops": SHRINK_OPS}
 PROPS["C12"]["op_scope"] = {"include": False, "ops": SHRINK_OPS}
 PROPS["C08"]["op_scope"] = {"include": True, "ops": ["clone", "clone_from", "from_ref", "to_ls", "drop"]}
+
+# unusual histories (exact lengths / capacities, degenerate arguments, every storage history): part of every property whose
+# check compares scripts with the model
+for _pid in ["C01", "C02", "C03", "C05", "C06", "C07", "C09", "C10", "C11", "C13"]:
+    PROPS[_pid]["families"]["quick"] = PROPS[_pid]["families"]["quick"] + [fam("edges", n=1)]
+    PROPS[_pid]["families"]["thorough"] = PROPS[_pid]["families"]["thorough"] + [fam("edges", n=2)]
+
